@@ -7,7 +7,14 @@
 (* starting state; blocks 1..nb form a tree (parent[b] < b).  Up to four   *)
 (* relevant transactions ("roles") may be confirmed in blocks:             *)
 (*     role 1      the root (funding tx, or the commitment tx that closes) *)
-(*     role 2,3,4  children of role 1; 2 and 4 spend the same output       *)
+(*     role 2,3,4  descendants of role 1: dep[r] is the role whose output  *)
+(*                 role r spends (0: an output of the starting state).     *)
+(*                 The classic shape is the star dep = <<0,1,1,1>>; a      *)
+(*                 DEPENDENCY CHAIN is dep = <<0,1,2,1>> (commitment ->    *)
+(*                 second-stage HTLC transaction -> claim on its output,   *)
+(*                 and commitment -> claim).  2 and 4 spend the same       *)
+(*                 output.  Chains may be packed into one block (in        *)
+(*                 topological order, as consensus demands) or spread.     *)
 (* A role may sit in one block of a branch, be absent from a branch, or be *)
 (* confirmed at a different place in a competing branch.  The client's     *)
 (* view of the best chain moves through a sequence of targets (tips).      *)
@@ -37,9 +44,10 @@ VARIABLES
   has,         \* SUBSET Roles              roles the starting state offers
   minh,        \* [Roles -> Nat]            earliest height (relative to block 0) a role is valid at
   fundingRole, \* BOOLEAN                   role 1 is the funding transaction (else a commitment tx)
+  dep,         \* [Roles -> Roles \cup {0}]  the role whose output a role spends (0: none of the history)
   target       \* the tip of the client's current best chain
 
-hvars == <<nb, parent, txin, has, minh, fundingRole>>
+hvars == <<nb, parent, txin, has, minh, fundingRole, dep>>
 
 Blocks == 0..nb
 
@@ -64,13 +72,14 @@ Buried(r, tip) == Depth(r, tip) >= ARD
 \* A well-formed history: every chain of the tree is a valid block chain for the roles.
 TreeOK ==
   /\ nb \in Nat
+  /\ dep \in [Roles -> 0..4] /\ \A r \in Roles : dep[r] < r           \* acyclic: a parent has a smaller number
   /\ parent \in [1..nb -> 0..nb]
   /\ \A b \in 1..nb : parent[b] < b
   /\ txin \in [1..nb -> SUBSET has]
   /\ \A b \in 1..nb :
        /\ \A r \in txin[b] :
             /\ Cardinality({a \in Chain(b) : r \in RolesIn(a)}) = 1     \* confirmed once per chain
-            /\ r # 1 => Place(1, b) # None                              \* a child needs its parent
+            /\ dep[r] # 0 => Place(dep[r], b) # None                     \* a child needs its parent
             /\ Height(b) >= minh[r]                                     \* locktime
        /\ ~(Place(2, b) # None /\ Place(4, b) # None)                   \* 2 and 4 double-spend each other
 
@@ -122,7 +131,7 @@ CanTxs(cf, ifc, b, sel) ==
   /\ Stale(cf) = {}
   /\ \A r \in Roles : LET p == Place(r, target) IN
         (p # None /\ Height(p) < Height(b)) => cf[r] = p
-  /\ \A r \in sel : (r # 1 /\ 1 \in txin[b]) => (1 \in sel \/ cf[1] = b)
+  /\ \A r \in sel : (dep[r] # 0 /\ dep[r] \in txin[b]) => (dep[r] \in sel \/ cf[dep[r]] = b)
 ConfAfterTxs(cf, b, sel) == [r \in Roles |-> IF r \in sel THEN b ELSE cf[r]]
 
 \* chain::Confirm::transaction_unconfirmed, for every transaction the object reports in
@@ -150,6 +159,10 @@ CanBest(tp, cf, ifc, b) ==
   /\ \A r \in Stale(cf) : Height(cf[r]) > Height(b)
   /\ \A r \in Roles : (cf[r] # None /\ Anc(cf[r], target)) => Height(cf[r]) <= Height(b)
 ConfAfterBest(tp, cf, b) == IF Anc(tp, b) THEN cf ELSE ConfAfterRewind(cf, b)
+
+\* Block-internal order (consensus, and "dependent transactions within the same block must be given
+\* in topological order"): in a sequence of roles no transaction precedes the one it spends.
+TopoSeq(s) == \A i, j \in 1..Len(s) : dep[s[j]] = s[i] => i < j
 
 \* The object has been told everything about the best chain.
 SyncedTo(tp, cf) == tp = target /\ \A r \in Roles : cf[r] = Place(r, target)
